@@ -1024,11 +1024,22 @@ fn parse_files0_args(config: &mut Config) -> Result<(), Box<dyn Error>> {
         buffer_split.remove(buffer_split.len() - 1);
     }
 
-    let mut string_segments: Vec<String> = buffer_split
-        .iter()
-        .filter_map(|s| std::str::from_utf8(s).ok())
-        .map(|s| s.to_string())
-        .collect();
+    // Starting points are held as strings: a name that is not valid UTF-8 is refused,
+    // as it is among the operands, instead of being left out silently.
+    let mut string_segments: Vec<String> = Vec::with_capacity(buffer_split.len());
+    for segment in buffer_split {
+        match std::str::from_utf8(segment) {
+            Ok(s) => string_segments.push(s.to_string()),
+            Err(_) => {
+                return Err(format!(
+                    "{}: file name {:?} is not valid UTF-8",
+                    mode,
+                    String::from_utf8_lossy(segment)
+                )
+                .into())
+            }
+        }
+    }
     // empty starting point checker
     if string_segments.iter().any(|s| s.is_empty()) {
         eprintln!("find: invalid zero-length file name");
